@@ -59,7 +59,17 @@ def handler(case):
                 })
         return out
 
-    res = {"pre": snap(), "passes": []}
+    if case.get("pre_options"):
+        # array models: the per-element attributes exist only after _expand_vectors; take the "before the
+        # merge" snapshot from a second instance of the model that is expanded but not alias-eliminated
+        main_model = model
+        model = generator.generate(parser.parse(case["text"]), case["cls"])
+        model.simplify(dict(case["pre_options"]))
+        pre = snap()
+        model = main_model
+        res = {"pre": pre, "passes": []}
+    else:
+        res = {"pre": snap(), "passes": []}
     for opts in case["passes"]:
         model.simplify(dict(opts))
         res["passes"].append(snap())
